@@ -44,6 +44,10 @@ def step (s : DSt) (ts : List String) : DSt × String :=
       let r := txsToCommit s.view sl cl
       (s, s!"{showNatList (r.out.map (·.id))} size={r.size} cycles={r.cycles}")
     | _, _ => (s, "bad-op")
+  | ["select-stale", _, _] =>
+    -- the dumped pool violates the theorems' hypotheses (see `hyp`): the implementation's result is
+    -- HashSet-order dependent there; nothing to compare beyond the classification itself
+    (s, "stale")
   | op :: _ =>
     -- scenario ops act on the real node only; their effect reaches the model through the dumps
     if ["cfg", "submit", "wait", "template", "mine", "fork", "uncle"].contains op then (s, "ok") else (s, "bad-op")
